@@ -23,6 +23,24 @@ Theorem pop_fails_only_when_empty : forall q batch q' rs i,
 Proof. exact pop_fails_only_when_empty_proof. Qed.
 Print Assumptions pop_fails_only_when_empty.
 
+(* Exception isolation, first pass: a push whose element copy throws and a pop whose element assignment throws are
+   answered with a failure and leave the queue untouched — the queue state, the postponed pops and every other
+   result are exactly those of the batch without the faulty operations. *)
+Theorem copy_and_assign_failure_isolated_pass1 : forall ops q P D q' P' D',
+  pass1f q ops P D = (q', P', D') ->
+  pass1 q (strip_ops ops) (strip_post P) (strip_res D) = (q', strip_post P', strip_res D').
+Proof. exact pass1f_isolated. Qed.
+Print Assumptions copy_and_assign_failure_isolated_pass1.
+
+(* ... and second pass (postponed pops): a rejecting pop is answered (exception, or "empty") without touching the
+   queue; the other pops get exactly what they would get without it. *)
+Theorem pop_assign_failure_isolated_pass2 : forall pops q D q' D' rej,
+  pass2f q pops D = (q', D') ->
+  (forall i, In (i, true) pops -> In i rej) -> (forall i, In (i, false) pops -> ~ In i rej) ->
+  pass2 q (strip_post pops) (strip_res2 D rej) = (q', strip_res2 D' rej).
+Proof. exact pass2f_isolated. Qed.
+Print Assumptions pop_assign_failure_isolated_pass2.
+
 Example batch_example :
   handle_operations (mk [9; 5; 3]%Z 3) [Pop; Push 100%Z; Push 10%Z; Pop; Pop; Pop; Pop; Pop]
   = (mk [] 0, [(0, RFail); (5, RPop 3%Z); (6, RPop 5%Z); (7, RPop 9%Z); (4, RPop 100%Z);
